@@ -58,7 +58,6 @@ ASSUMPTIONS = ['letter classes beyond ASCII are the static table Model/NamesUni.
 PARTIAL = ['more than 100 nested braces in a token that does not start with a letter make Person() raise BibTeXError (a pybtex error, parse_name_guard, '
            'known finding FC04b, reported by the oracle): parse_name_total says "no foreign exception, no divergence" for every string, parse_name_ok gives success '
            'for every string with <= 100 opening braces',
-           'the comma split split_tex_string(s, \',\') has conservation and atomicity theorems only; its exact boundaries are checked by the oracle',
            'code points outside the table of Model/NamesUni.v count as non-letters in the model; for the 33 cased-but-not-alphabetic code points the code itself is inconsistent '
            '(string[0].isupper()/islower() for the first character, char.isalpha() afterwards): excluded from the domain']
 
